@@ -335,6 +335,37 @@ pub open spec fn has_prefix(s: Seq<char>, p: Seq<char>) -> bool { s.len() >= p.l
 #[verifier::external_body] pub fn string_clone(s: &String) -> (r: String) ensures r@ == s@ { s.clone() }
 """
 
+def referenced_consts(sf, cut):
+    """R29 (generic): module-level `const NAME: T = EXPR;` / `static NAME: T = EXPR;` items of the same file whose name occurs in the cut are extracted with it
+    (their text, verbatim).  Returns (list of cuts, list of (constant name, string literal it is initialised with))."""
+    from vf.rustcut import mask
+    out, lits = [], []
+    names = sorted(set(re.findall(r"\b[A-Z][A-Z0-9_]{2,}\b", mask(cut.text))))
+    m = mask(sf.text)
+    for n in names:
+        k = re.search(r"^(?:pub(?:\([^)]*\))?\s+)?(?:const|static)\s+%s\s*:[^;]*;" % re.escape(n), m, re.M)
+        if not k:
+            continue
+        c = sf.cut_span(k.start(), k.end(), "module-level constant %s referenced by %s (R29)" % (n, cut.desc))
+        c.sub(r":\s*&str\b", ": &'static str", "R29 the elided 'static of a constant's reference type written out", expect=(0, 1))
+        out.append(c)
+        lits += [(n, l) for l in re.findall(r'"((?:[^"\\]|\\.)*)"', c.text)]
+    return out, lits
+
+
+STR_FIND_SHIM = """
+// R15 (generic): s.find(c) for a char c: position of the first occurrence (a byte offset; equal to the character index for an ASCII text: A-ascii-table)
+#[verifier::external_body] pub fn str_find_char(s: &str, c: char) -> (r: Option<usize>)
+    ensures r is Some ==> r->Some_0 < s@.len() && s@[r->Some_0 as int] == c && (forall|j: int| 0 <= j < r->Some_0 ==> s@[j] != c),
+            r is None ==> !s@.contains(c),
+{ s.find(c) }
+"""
+
+
+def r15_find_char(cut):
+    return cut.sub(r"\b([A-Za-z_]\w*(?:\.\w+)*)\.find\((\w+|'(?:\\.|[^'\\])')\)", r"str_find_char(\1, \2)", "R15 str::find(char) -> shim", expect=(0, 8))
+
+
 STR_CONTAINS_SHIM = """
 // R15 (generic): s.contains("literal") / s.contains('c') on a String / &str: a function of the two texts
 pub uninterp spec fn has_infix(s: Seq<char>, p: Seq<char>) -> bool;
